@@ -44,8 +44,15 @@ fn drain_parsed_on(flop: &[u8; 3], players: &[HandRange], positions: u8, mode: M
         k => ev.scope(0, 1, 0, 1 + k),
     }
     let mut n = 0u64;
-    for s in ev {
+    let mut it = ev.into_iter();
+    // callers ask iterators for a size hint (collect, extend, zip): it must simply return, also
+    // in mid-run and after the end
+    std::hint::black_box(it.size_hint());
+    while let Some(s) = it.next() {
         n += 1;
+        if n % 64 == 1 {
+            std::hint::black_box(it.size_hint());
+        }
         if mode == Mode::Content {
             let p = s.probability();
             if !(p >= 0.0 && p <= 1.0) {
@@ -69,7 +76,19 @@ fn drain_parsed_on(flop: &[u8; 3], players: &[HandRange], positions: u8, mode: M
             break;
         }
     }
+    std::hint::black_box(it.size_hint());
     Ok(n)
+}
+
+/// A full table: the parsed range at ten seats (for every range beyond a few dozen combos the
+/// product of the range sizes exceeds 2^64).  Nothing can be drained there; building the iterator,
+/// asking for its size hint and collecting the (empty) prefix of length 0 must return.
+fn full_table(r: &HandRange, seats: usize) -> u64 {
+    let players: Vec<HandRange> = (0..seats).map(|_| r.clone()).collect();
+    let it = FlopExhaustiveEvaluator::new(&e_board(&FLOP), &players).into_iter();
+    let (lo, hi) = it.size_hint();
+    let v: Vec<espada::evaluator::Showdown> = it.take(0).collect();
+    lo as u64 + hi.unwrap_or(0) as u64 + v.len() as u64
 }
 
 fn content_of(what: &str, src: &str, combos: &[(CardPair, f32)]) -> Result<(), Fail> {
@@ -148,6 +167,11 @@ pub fn check(mode: Mode, s: &str) -> CheckResult {
         let r1 = r.clone();
         if let Some(res) = guarded!("FlopExhaustiveEvaluator over the parsed range", drain_parsed(&[r1], positions, mode)) {
             res?;
+        }
+        // a full table of ten such ranges (and of six): construction and size hint only
+        if n > 0 {
+            guarded!("FlopExhaustiveEvaluator over ten copies of the parsed range: into_iter() and size_hint()", full_table(&r, 10));
+            guarded!("FlopExhaustiveEvaluator over six copies of the parsed range: into_iter() and size_hint()", full_table(&r, 6));
         }
         // to the very end: the whole enumeration for small ranges, the last turn rows otherwise
         let r1 = r.clone();
@@ -478,7 +502,7 @@ pub fn run(ctx: &mut Ctx, mode: Mode) {
     let tier = ctx.tier;
     match mode {
         Mode::Total => {
-            ctx.rule = "strings: (1) every string of length 0-3 (thorough 0-4) over the 32-symbol alphabet ranks + 'shdco+-:.,01' + space + é (2 bytes) + € (3) + 😀 (4) + 'a','k','S' (wrong-case letters); (2) every string matching a token shape with arbitrary ranks - XY, XY+, XYk, XYk+, XY-ZW, XYk-ZWk', all 52x52 card-pair texts incl. both cards equal - without and with ':0.5', and the short shapes in every mix of upper- and lower-case letters; every single and double substitution of a notation character by a Unicode look-alike of its class (decimal digits of other scripts, full-width forms, Kelvin sign, long s, dashes, ...) in valid texts of every shape and weight form; every string made of a rank letter and two arbitrary printable ASCII characters (thorough: all 857,375 three-character printable strings); (3) proptest: valid notation with one or two characters inserted/replaced/deleted at any offset (multi-byte, NUL, combining, notation characters), comma lists mixing valid tokens with junk and the degenerate spans '22-AA','KAs+','2As+', arbitrary Unicode, weight literals, over-long inputs (up to 10^5 characters, 10^4 commas, 2,000 tokens). Oracle under catch_unwind: parse as Rank, Suit, Card, CardPair, HandRangeToken, HandRange returns; every Ok value is formatted, expanded, decomposed (rank_pairs, orphan_card_pairs) and drained through FlopExhaustiveEvaluator (alone on the first positions and to the very end - the whole enumeration for ranges of <= 24 combos, the last turn rows otherwise -, beside a fixed player, twice, at seats 0 and 2 around a disjoint player, and completely on a monotone and on a paired low flop for ranges of <= 60 combos). Non-trivial = accepted by some parser, or contains a multi-byte character, or has a token shape; distinct by string.".into();
+            ctx.rule = "strings: (1) every string of length 0-3 (thorough 0-4) over the 32-symbol alphabet ranks + 'shdco+-:.,01' + space + é (2 bytes) + € (3) + 😀 (4) + 'a','k','S' (wrong-case letters); (2) every string matching a token shape with arbitrary ranks - XY, XY+, XYk, XYk+, XY-ZW, XYk-ZWk', all 52x52 card-pair texts incl. both cards equal - without and with ':0.5', and the short shapes in every mix of upper- and lower-case letters; every single and double substitution of a notation character by a Unicode look-alike of its class (decimal digits of other scripts, full-width forms, Kelvin sign, long s, dashes, ...) in valid texts of every shape and weight form; every string made of a rank letter and two arbitrary printable ASCII characters (thorough: all 857,375 three-character printable strings); (3) proptest: valid notation with one or two characters inserted/replaced/deleted at any offset (multi-byte, NUL, combining, notation characters), comma lists mixing valid tokens with junk and the degenerate spans '22-AA','KAs+','2As+', arbitrary Unicode, weight literals, over-long inputs (up to 10^5 characters, 10^4 commas, 2,000 tokens). Oracle under catch_unwind: parse as Rank, Suit, Card, CardPair, HandRangeToken, HandRange returns; every Ok value is formatted, expanded, decomposed (rank_pairs, orphan_card_pairs) and drained through FlopExhaustiveEvaluator (alone on the first positions and to the very end - the whole enumeration for ranges of <= 24 combos, the last turn rows otherwise -, beside a fixed player, twice, at seats 0 and 2 around a disjoint player, as a full table of ten and of six copies - construction, size_hint() and an empty collect only; size_hint() is also asked before, during and after every drain -, and completely on a monotone and on a paired low flop for ranges of <= 60 combos). Non-trivial = accepted by some parser, or contains a multi-byte character, or has a token shape; distinct by string.".into();
         }
         Mode::Content => {
             ctx.rule = "same string generators as C09 plus every weight literal [01](.d{1,3})? on one token of each shape and generated literals (1.0..01, 0.99.., 40-digit fractions, exponents, NaN/inf). Oracle: every combo of every Ok card pair / token / range has two different cards and a weight w with 0 <= w <= 1; evaluator runs over the parsed ranges (alone, beside a fixed player, the range twice) yield only showdowns with probability in [0,1] and 5+2n pairwise distinct cards. Panics are C09's subject and skipped here. Non-trivial = the string parses to a card pair, token or non-empty range; distinct by string.".into();
